@@ -18,14 +18,23 @@ import sys
 CR_TAIL = False
 
 
+FIELD3 = False
+
+
 def answer(line):
+    if FIELD3:   # print the third tab-separated field (empty if absent or empty)
+        f = line.split(b"\t")
+        return f[2] if len(f) > 2 else b""
     return b"<" + line.upper() + b">" + (b"\r" if CR_TAIL else b"")
 
 
 def main():
     args = sys.argv[1:]
     mode = args[0] if args else "eager"
-    global CR_TAIL
+    global CR_TAIL, FIELD3
+    if mode.endswith("+f3"):      # answers = third tab-separated field of the line
+        FIELD3 = True
+        mode = mode[:-3]
     if mode.endswith("+cr"):      # answers end in a carriage return (before the newline)
         CR_TAIL = True
         mode = mode[:-3]
